@@ -162,7 +162,7 @@ def free_histories(ctx, count):
     """random longer histories over random layouts; the typing discipline (which object is what) is kept by a small mirror"""
     rng = ctx.rng
     out = []
-    names = ["a", "b", "c", "d/e", "d/f", "g/h/i", "j", "k/l"]
+    names = ["a", "b", "c", "d/e", "d/f", "g/h/i", "j", "k/l", ".hid/m", "hid/m", ".n", "o/.p/q", "..r/s"]       # dot-prefixed folders and files are names like any other
     for t in range(count):
         nroot = rng.randint(2, 4)
         dirs = [sorted(rng.sample(names, rng.choice([0, 1, 2, 3, 5, 8]))) for _ in range(nroot)]
@@ -230,6 +230,27 @@ def free_histories(ctx, count):
     return out
 
 
+def chain_histories(ctx, q):
+    """three populations of different sizes chained; then every ordered pair (and some triples) of indices on the chain: what an index returns
+    must not depend on which index was asked before"""
+    dirs = [["a", "b", "c"], ["a", "b"], ["a", "b", "c", "d"]]
+    pre = [{"a": "from_swc", "r": 1, "order": []}, {"a": "from_swc", "r": 2, "order": []}, {"a": "from_swc", "r": 3, "order": []},
+           {"a": "zipof", "pops": [2, 4, 6]}, {"a": "topop", "o": 7}]
+    n = 9
+    out = []
+    keys = list(range(-n, n))
+    pairs = [(a, b) for a in keys for b in keys if a != b]
+    if q:
+        pairs = pairs[::5]
+    for k, (a, b) in enumerate(pairs):
+        o = 8 + k % 2
+        hist = pre + [{"a": "index", "o": o, "key": a}, {"a": "index", "o": o, "key": b}]
+        if k % 3 == 0:
+            hist += [{"a": "index", "o": o, "key": (a + b) % n}, {"a": "iter", "o": o}]
+        out.append({"dirs": dirs, "junk": {}, "hist": hist})
+    return out
+
+
 def run(ctx):
     q = ctx.tier == "quick"
     ctx.mc("MC_Population", "MC_Population.%s.cfg" % ctx.tier, deadlock=False, coverage=False, timeout=3000)
@@ -247,6 +268,9 @@ def run(ctx):
         sims = sims[:(300 if q else 6000)]
         p = ctx.write_cases("simulated", sims)
         ctx.run_cases("simulated", sims, p, exec_hist, "Trace_Population", keyfn, nontrivial)
+        ch = chain_histories(ctx, q)
+        p = ctx.write_cases("chain-index-order", ch)
+        ctx.run_cases("chain-index-order", ch, p, exec_hist, "Trace_Population", keyfn, nontrivial)
         fr = free_histories(ctx, 150 if q else 3000)
         p = ctx.write_cases("free", fr)
         ctx.run_cases("free", fr, p, exec_hist, "Trace_Population", keyfn, nontrivial)
